@@ -52,7 +52,7 @@ func Model(w *Workload) *Expect {
 	unc := map[int]bool{}
 	for _, f := range w.Faults {
 		if f.Certain {
-			if _, ok := badKind[f.File]; !ok || (f.Kind != "garbage-body" && f.Kind != "garbage-bracket") {
+			if _, ok := badKind[f.File]; !ok || (f.Kind != "garbage-body" && f.Kind != "garbage-bracket" && f.Kind != "bad-escape") {
 				badKind[f.File] = f.Kind
 			}
 		} else {
@@ -71,7 +71,7 @@ func Model(w *Workload) *Expect {
 			return false // what an uncertain fault leaves of the import section is unknown
 		}
 		k, bad := badKind[i]
-		return !bad || k == "garbage-body" || k == "garbage-bracket"
+		return !bad || k == "garbage-body" || k == "garbage-bracket" || k == "bad-escape"
 	}
 	type pend struct {
 		to       int
